@@ -458,6 +458,16 @@ class DataclassSerializer:
             finally:
                 visited.remove(obj_id)
 
+        # Handle dicts - track them like lists so that a dict reachable from itself cannot recurse forever
+        if isinstance(obj, dict):
+            visited.add(obj_id)
+            try:
+                values = {key: DataclassSerializer._serialize_with_tracking(value, visited) for key, value in obj.items()}
+                # cattrs converts the keys (enum keys etc.); the values are plain data already
+                return DataclassSerializer._remove_none_values(unstructure_to_dict(values))
+            finally:
+                visited.remove(obj_id)
+
         # For dataclasses, track and use cattrs
         if dataclasses.is_dataclass(obj) and not isinstance(obj, type):
             visited.add(obj_id)
